@@ -8,14 +8,14 @@ from ..oracles import matching as OM
 from ..util import scale_of
 
 ID = "C07"
-CASES = {"quick": 800, "thorough": 2400}
+CASES = {"quick": 2400, "thorough": 7200}
 MIN_NONTRIVIAL = {"quick": 400, "thorough": 1200}
 LAWS = ["reorder=>0", "symmetric", "non-negative", "triangle", "diagonal points ignored", "diagonal translation",
         "linear scaling", "vs empty diagram"]
 REQUIRED = ["bn: " + l for l in LAWS] + ["ws: " + l for l in LAWS] + ["bottleneck<=wasserstein", "bn: ==oracle", "ws: ==oracle"]
 RULE = ("triples (X,Y,Z) of diagrams with 10..60 (quick) / 10..300 (thorough) points each (plus a few tiny ones): independent "
         "random, Y a jittered copy of X (near-zero distances), clustered, integer grids with massive ties, re-paired copies (same births and same deaths, different pairing); scales 1e-3..1e3; "
-        "one case in 97 has 300-450 generic points per diagram (symmetry, reordering, diagonal points and the oracle only); one hash seed per worker. Every law is a separate monitor clause; the C01/C02 scipy oracles run on the same "
+        "two of every three cases are micro cases (1-3 points on a decimal lattice, the second diagram nested concentrically in the first; oracle, symmetry, scaling, translation, bn<=ws only); one (full) case in 97 has 300-450 generic points per diagram (symmetry, reordering, diagonal points and the oracle only); one hash seed per worker. Every law is a separate monitor clause; the C01/C02 scipy oracles run on the same "
         "values. non-trivial = all three diagrams have >=10 points and are pairwise different; distinct = triple digest")
 ASSUMPTIONS = ["tolerances: bottleneck 1e-9*scale (exact arithmetic up to the transformation's own rounding), Wasserstein "
                "1e-7*scale*(M+N+1) (sklearn sqrt-eps cross distances; W(X,X) is 0 only up to that)",
@@ -102,8 +102,51 @@ def large_case(ctx, k, rng):
     ctx.mark_nontrivial(X, Y)
 
 
+def micro_case(ctx, k, rng):
+    """1-3 points per diagram on a decimal lattice (threshold sweeps in steps of 0.1 / 0.05 / 0.01), the second diagram concentric
+    with / nested in the first: the regime where one pair decides everything and every bound or shortcut computed along a second
+    floating-point route is an ulp away from the table entry.  Only the cheap laws; two of every three cases are of this kind."""
+    q = float(rng.choice([0.1, 0.05, 0.01, 0.2]))
+    n = int(rng.integers(1, 4))
+    b = rng.integers(0, 12, n) * q; d = b + rng.integers(2, 14, n) * q
+    X = np.column_stack([b, d])
+    Y = X.copy()
+    for i in range(n):
+        w = int(rng.integers(0, 4)) * q * float(rng.choice([0.5, 1.0]))
+        if Y[i, 1] - Y[i, 0] > 2 * w:
+            Y[i] = [Y[i, 0] + w, Y[i, 1] - w]
+    if rng.random() < 0.3:
+        Y = Y[: max(1, n - 1)]
+    if rng.random() < 0.5:
+        X, Y = Y, X
+    scale = float(rng.choice([1.0, 1.0, 10.0, 1e-3]))
+    X, Y = X * scale, Y * scale
+    ctx.begin(k, "micro-decimal", {"X": X, "Y": Y})
+    sc = scale_of(X, Y)
+    vals = {}
+    S, T = OM.finite_rows(X), OM.finite_rows(Y)
+    for kind, fn in (("bn", bottleneck), ("ws", wasserstein)):
+        tol = 1e-9 * sc if kind == "bn" else 1e-7 * sc * (len(X) + len(Y) + 1)
+        try:
+            ctx.ran(4)
+            dxy = float(fn(X, Y)); vals[kind] = dxy
+            ref = OM.bottleneck_threshold(S, T) if kind == "bn" else OM.wasserstein_lsa(S, T)
+            ctx.check(kind + ": ==oracle", abs(dxy - ref) <= tol, got=dxy, ref=ref)
+            ctx.check(kind + ": symmetric", abs(float(fn(Y, X)) - dxy) <= tol, dxy=dxy)
+            c = float(rng.choice([10.0, 2.0, 0.5]))
+            ctx.check(kind + ": linear scaling", abs(float(fn(X * c, Y * c)) - c * dxy) <= c * tol + 1e-9 * c * sc, expected=c * dxy, c=c)
+            s = float(rng.choice([3.0, -1.0, 0.7])) * sc
+            ctx.check(kind + ": diagonal translation", abs(float(fn(X + s, Y + s)) - dxy) <= tol + 1e-9 * (sc + abs(s)), base=dxy, shift=s)
+        except Exception as e:
+            ctx.exception(kind + ": returns", e)
+    if len(vals) == 2:
+        ctx.check("bottleneck<=wasserstein", vals["bn"] <= vals["ws"] + 1e-7 * sc * (len(X) + len(Y) + 1), bn=vals["bn"], ws=vals["ws"])
+
+
 def run_case(ctx, k, rng):
-    if k % 97 == 13:
+    if k % 3 != 0:
+        return micro_case(ctx, k, rng)
+    if (k // 3) % 97 == 13:
         return large_case(ctx, k, rng)
     X, Y, Z, scale, style = gen_triple(rng, ctx.tier)
     ctx.begin(k, style, {"X": X, "Y": Y, "Z": Z})
